@@ -40,6 +40,7 @@ class Obs(object):
         self.conn_side = {cid: cm.bound[1] if cm.bound else None for cid, cm in res.checker.conns.items()}
         self.res = res
         self.res_events = [(ev.step, ev.msg, ev.conn) for ev in w.history if ev.kind == "send" and ev.msg is not None]
+        self.cm_at = {ev.step: ev.notes.get("cm") for ev in w.history if ev.kind == "send" and ev.notes.get("cm")}
 
 
 def observe(seed, spec, props=None):
@@ -378,16 +379,15 @@ class C14Engine(PairedEngine):
         app, side = H.conn_app.get(conn), H.conn_side.get(conn)
         if app is None:
             return viol, facts
-        cm_np = self._conn_np(H, spec, conn, step)
+        cm_np, cm_mb = (H.cm_at.get(step) or [None, None])
         if kind == "release" and "nameplate" not in cmd:
             if cm_np is None:
                 return viol, facts
             cmd["nameplate"] = cm_np
         if kind == "close" and "mailbox" not in cmd:
-            mb = self._conn_mb(H, spec, conn, step)
-            if mb is None:
+            if cm_mb is None:
                 return viol, facts
-            cmd["mailbox"] = mb
+            cmd["mailbox"] = cm_mb
         cmd.pop("id", None)
         D = self.DUP_CONN
         dup = [{"op": "connect", "c": D}, {"op": "send", "c": D, "m": {"type": "bind", "appid": app, "side": side}},
